@@ -90,6 +90,14 @@ class ReplaySlice:
                         if isinstance(n, ast.Name) and isinstance(n.ctx, ast.Store):
                             seen.setdefault(n.id, []).append(...)
             params = set(p.lstrip("*") for p in param_names(fn))
+            # a flag bound once to a test that the slice decides (`training = alpha is None`) is a constant of the slice
+            for st in reach:
+                if isinstance(st, ast.Assign) and len(st.targets) == 1 and isinstance(st.targets[0], ast.Name) and not isinstance(st.value, ast.Constant):
+                    nm = st.targets[0].id
+                    if len(seen.get(nm, [])) == 1 and nm not in params and isinstance(st.value, (ast.Compare, ast.BoolOp, ast.UnaryOp)):
+                        v = self.prune(st.value)
+                        if v is not None:
+                            seen[nm] = [v]
             for n, vals in seen.items():
                 if n not in params and ... not in vals and len(set(map(repr, vals))) == 1 and isinstance(vals[0], bool):
                     consts[n] = vals[0]
@@ -171,6 +179,8 @@ class ReplaySlice:
                         out.append((st, norm(t.slice)))
             for c in header_calls(st):
                 if isinstance(c.func, ast.Attribute) and self._is_S(c.func.value) and c.func.attr in ("update", "setdefault", "pop", "clear", "popitem", "__setitem__"):
+                    if c.func.attr == "setdefault" and self.present:
+                        continue  # dict.setdefault never overwrites a key that is present: on replay it is a read
                     out.append((st, c.func.attr))
         return out
 
